@@ -3,7 +3,7 @@ def fuzzyEqualParams : List String := ["first", "second", "rel_tol", "abs_tol"]
 def fuzzyEqualBody : List Fc.NStmt := [
   .assign "abs_diff" (.abs (.sub (.var "second") (.var "first"))),
   .assign "thresholds" (.maximum (.abs (.var "first")) (.abs (.var "second"))),
-  .imul "thresholds" (.var "rel_tol"),
+  .assign "thresholds" (.mul (.var "thresholds") (.var "rel_tol")),
   .assign "thresholds" (.maximum (.var "thresholds") (.var "abs_tol")),
   .ret (.lessEqual (.var "abs_diff") (.var "thresholds"))
 ]
